@@ -5,6 +5,7 @@ import (
 	"go/token"
 	"go/types"
 	"sort"
+	"strings"
 
 	"golang.org/x/tools/go/ssa"
 )
@@ -18,8 +19,8 @@ func init() {
 		Explanation: "Decides ONE structural clause of 'decoding a well-formed UTF-16BE text string never fails / text reads back unchanged': the decoder's classification of 16-bit code units agrees with the Unicode partition BMP [0000,D7FF] · high surrogates [D800,DBFF] · low surrogates [DC00,DFFF] · BMP [E000,FFFF]. " +
 			"(R1) every comparison of a 16-bit code unit with a constant in types.decodeUTF16String is normalised to a half-line (v <= c, v < c → v <= c-1, v >= c, v > c → v >= c+1; negated branch edges are the same cut) and its cut must be one of the partition's cuts: upper ends D7FF, DBFF, DFFF, FFFF; lower ends 0000, D800, DC00, E000. An off-by-one constant or operator (v > 0xE000) misclassifies a valid character as a surrogate and makes a well-formed string fail to decode. " +
 			"(R2) the encoder side hands the text to the standard library: EncodeUTF16String calls unicode/utf16.Encode and writes the byte order mark FE FF; EscapedUTF16String rejects invalid UTF-8 before encoding. " +
-			"(R3) the decoder cuts the byte order mark off once, outside any loop (U+FEFF as first character is FE FF as well); (R1 also covers the encoder: a hand-written BMP test must cut between FFFF and 10000). NOT decided: the round trip itself over all scalar values (surrogate arithmetic is the standard library's), which writer is used for which text entry, PDFDocEncoding/UTF-8 guessing for strings without a byte order mark.",
-		Rules:       []string{"C13.R1 TABLE: code-unit comparisons of the UTF-16 decoder cut exactly at the Unicode partition", "C13.R2 shape: the encoder delegates to unicode/utf16 and writes the byte order mark", "C13.R3 shape: the byte order mark is stripped exactly once"},
+			"(R3) the decoder cuts the byte order mark off once, outside any loop (U+FEFF as first character is FE FF as well); (R1 also covers the encoder: a hand-written BMP test must cut between FFFF and 10000). (R4) the literal-string unescaper every stored text string passes through ends the escape state whenever an escape sequence has produced its byte (a UTF-16 code unit whose low byte is 5C is written as 5C 5C; if the flag survives, the next byte is taken as an escape letter); (R5) functions that copy a string element by element under a condition drop C0 control bytes only. NOT decided: the round trip itself over all scalar values (surrogate arithmetic is the standard library's), which writer is used for which text entry, PDFDocEncoding/UTF-8 guessing for strings without a byte order mark.",
+		Rules:       []string{"C13.R1 TABLE: code-unit comparisons of the UTF-16 decoder cut exactly at the Unicode partition", "C13.R2 shape: the encoder delegates to unicode/utf16 and writes the byte order mark", "C13.R3 shape: the byte order mark is stripped exactly once", "C13.R4 MPT (go/cfg): in Unescape a byte written inside an escape sequence is followed by an assignment of the escape flag before the next byte", "C13.R5 TABLE: text filters decide per element by a comparison with a constant <= 0x20 only"},
 		Assumptions: []string{"unicode/utf16.Encode / Decode are correct"},
 		Level:       "other",
 		Technique:   "constant/operator table agreement on SSA comparisons of 16-bit values",
@@ -32,7 +33,11 @@ func runC13(c *Ctx) {
 	r.MinInst["C13.R1"] = 5
 	r.MinInst["C13.R2"] = 2
 	r.MinInst["C13.R3"] = 1
+	r.MinInst["C13.R4"] = 1
+	r.MinInst["C13.R5"] = 1
 	checkC13Extras(c)
+	checkEscapeStateReset(c, "C13.R4")
+	checkC13TextFilters(c)
 	fid := "pkg/pdfcpu/types.decodeUTF16String"
 	fn := p.Func(fid)
 	if fn == nil {
@@ -221,5 +226,172 @@ func checkC13Extras(c *Ctx) {
 				r.Bad("C13.R1", FuncID(fn), construct, p.Pos(b.Pos()), fmt.Sprintf("the encoder cuts the code points between 0x%X and 0x%X, which is neither the end of the basic multilingual plane (FFFF|10000) nor a surrogate boundary: the code point next to the cut is written with the wrong number of code units and reads back as another character", cut, cut+1))
 			}
 		})
+	}
+}
+
+// ---------------- C13.R4 / R5 (round 3 seeds C13-C, C13-D) ----------------
+
+// R5: text filters. A func(string) string that copies its argument element by element into a builder under a
+// condition is a filter on text; the only filter the tree has on the text-string path (outlineItemTitle) drops
+// C0 control bytes. The rule: every condition that decides, inside the copy loop, whether an element is written
+// is a comparison of that element with a constant <= 0x20 (a cut inside the C0 controls / space); a class
+// predicate (unicode.IsGraphic, IsPrint ...) or a higher cut drops characters of valid text (ZWJ, soft hyphen,
+// private use), so the title does not read back unchanged.
+// c13NotTextFilters: filtered copies that do not handle PDF text strings.
+var c13NotTextFilters = map[string]string{
+	"pkg/pdfcpu/types.EncodeName": "name encoder (C12) with a lazily started builder: iterations that write nothing precede the first replacement, and WriteString(s[:i]) then copies those elements wholesale",
+	"pkg/pdfcpu/sanitize.pathPart": "builds a file-system safe file name from an attachment or output name; the result is a path component, never stored as or read back from a PDF text string",
+}
+
+func checkC13TextFilters(c *Ctx) {
+	p, r := c.P, c.R
+	n := 0
+	for _, fn := range p.Funcs {
+		if !isSubject(fn) || fn.Signature.Recv() != nil || len(fn.Params) != 1 || fn.Signature.Results().Len() != 1 {
+			continue
+		}
+		isStr := func(t types.Type) bool {
+			b, ok := t.Underlying().(*types.Basic)
+			return ok && b.Kind() == types.String
+		}
+		if !isStr(fn.Params[0].Type()) || !isStr(fn.Signature.Results().At(0).Type()) {
+			continue
+		}
+		param := fn.Params[0]
+		// element of the parameter: s[i], or the rune/byte of a range over s
+		isElem := func(v ssa.Value) bool {
+			for {
+				switch x := v.(type) {
+				case *ssa.Convert:
+					v = x.X
+					continue
+				case *ssa.Lookup:
+					return x.X == ssa.Value(param)
+				case *ssa.Index:
+					return x.X == ssa.Value(param)
+				case *ssa.Extract:
+					if nx, ok := x.Tuple.(*ssa.Next); ok {
+						if rg, ok := nx.Iter.(*ssa.Range); ok {
+							return rg.X == ssa.Value(param) && x.Index == 2
+						}
+					}
+					return false
+				}
+				return false
+			}
+		}
+		loops := naturalLoops(fn)
+		k := 0
+		eachInstr(fn, func(b *ssa.BasicBlock, _ int, i ssa.Instruction) {
+			call, ok := i.(*ssa.Call)
+			if !ok {
+				return
+			}
+			callee := staticCallee(call)
+			if callee == nil || (callee.Name() != "WriteByte" && callee.Name() != "WriteRune") || len(call.Call.Args) != 2 || !isElem(call.Call.Args[1]) {
+				return
+			}
+			var loop *natLoop
+			for _, l := range loops {
+				if l.blocks[b] {
+					loop = l
+				}
+			}
+			if loop == nil {
+				return
+			}
+			// conditions inside the loop that decide whether b runs
+			var conds []*ssa.If
+			for blk := range loop.blocks {
+				if blk == loop.header || len(blk.Instrs) == 0 {
+					continue
+				}
+				ifi, ok := blk.Instrs[len(blk.Instrs)-1].(*ssa.If)
+				if !ok {
+					continue
+				}
+				if edgeDominates(Edge{blk, 0}, b) != edgeDominates(Edge{blk, 1}, b) {
+					conds = append(conds, ifi)
+				}
+			}
+			if len(conds) == 0 {
+				return // unconditional copy: not a filter
+			}
+			// a filter drops: some path of one iteration writes nothing (a transcoder that substitutes writes on every path)
+			writesIn := func(blk *ssa.BasicBlock) bool {
+				for _, in := range blk.Instrs {
+					if cl, ok := in.(*ssa.Call); ok {
+						if ce := staticCallee(cl); ce != nil && strings.HasPrefix(ce.Name(), "Write") {
+							return true
+						}
+					}
+				}
+				return false
+			}
+			drops := false
+			seen := map[*ssa.BasicBlock]bool{loop.header: true}
+			st := []*ssa.BasicBlock{loop.header}
+			for len(st) > 0 && !drops {
+				x := st[len(st)-1]
+				st = st[:len(st)-1]
+				for _, sx := range x.Succs {
+					if sx == loop.header {
+						drops = true
+						break
+					}
+					if !loop.blocks[sx] || seen[sx] || writesIn(sx) {
+						continue
+					}
+					seen[sx] = true
+					st = append(st, sx)
+				}
+			}
+			if !drops {
+				return
+			}
+			if why := c13NotTextFilters[FuncID(fn)]; why != "" {
+				k++
+				n++
+				r.OK("C13.R5", FuncID(fn), fmt.Sprintf("filtered copy#%d", k), p.Pos(call.Pos()), "not on the text-string path: "+why, false)
+				return
+			}
+			k++
+			n++
+			construct := fmt.Sprintf("filtered copy#%d", k)
+			var bad []string
+			for _, ifi := range conds {
+				bo, ok := ifi.Cond.(*ssa.BinOp)
+				if !ok {
+					bad = append(bad, "decided by "+exprName(ifi.Cond)+", not by a comparison of the element with a constant")
+					continue
+				}
+				var cst ssa.Value
+				switch {
+				case isElem(bo.X):
+					cst = bo.Y
+				case isElem(bo.Y):
+					cst = bo.X
+				}
+				v, isC := int64(0), false
+				if cst != nil {
+					v, isC = c31ConstInt(cst)
+				}
+				if !isC {
+					bad = append(bad, "decided by a comparison that is not element against constant")
+					continue
+				}
+				if v > 0x20 {
+					bad = append(bad, fmt.Sprintf("cut at 0x%X, above the C0 controls", v))
+				}
+			}
+			if len(bad) > 0 {
+				r.Bad("C13.R5", FuncID(fn), construct, p.Pos(call.Pos()), "a text filter drops elements of its argument other than C0 control bytes ("+strings.Join(bad, "; ")+"): characters of valid Unicode text (format characters, private use, unassigned) disappear from the text that is read back")
+			} else {
+				r.OK("C13.R5", FuncID(fn), construct, p.Pos(call.Pos()), fmt.Sprintf("%d deciding comparisons, each of the element against a constant <= 0x20", len(conds)), true)
+			}
+		})
+	}
+	if n == 0 {
+		r.Bad("C13.R5", "-", "anchor", "", "UNRESOLVED-ANCHOR: no filtered element copy in a func(string) string found (outlineItemTitle)")
 	}
 }
